@@ -4,12 +4,17 @@ from vf.ch import Ob
 
 ASSUMPTIONS = PRE_ASSUME
 OUTSIDE = ["file-system side effects (parsetab.py rewriting, dump files) and cross-process behaviour other than table generation: not expressible as a solver query over the code"]
-KINDS = ["line_dash", "line_hash", "line_block", "trail_dash", "trail_block", "multi_block"]
+KINDS = ["line_dash", "line_hash", "line_block", "trail_dash", "trail_block", "multi_block", "multi_block_banner", "trail_dash_glued"]
 
 
 def obligations(tier):
     t = 300 if tier == "quick" else 1200
-    return [Ob(f"C14.rerun/{k}", "pre", "c_rerun", {"VF_KIND": i, "VF_NCT": 4 if tier == "quick" else 12}, t, FN_PRE,
+    extra = [Ob("C14.order/table_properties", "c10", "c_props_order", {"VF_MODE": "sql"}, t, ["simple_ddl_parser/output/table_data.py:TableData.pre_load_mods"],
+                "three options without a dataclass field, any order (symbolic): reported in written order - an order taken from a set would differ for some triple; "
+                "replay runs the public API under hash seeds 0..3"),
+             Ob("C14.fresh/accumulators", "c06", "c_fresh", {}, t, ["simple_ddl_parser/dialects/sql.py:p_t_name, p_domain_name/p_expression_domain_as, p_type_name/p_type_definition, p_seq_name"],
+                "two calls of each skeleton-building action return dicts that share no mutable sub-object (lists / dicts)")]
+    return extra + [Ob(f"C14.rerun/{k}", "pre", "c_rerun", {"VF_KIND": i, "VF_NCT": 4 if tier == "quick" else 12}, t, FN_PRE,
                "script with one comment (kind fixed, position and text symbolic) and a last line of 5 kinds (symbolic): parse_data() twice on the "
                "same object - second result equals the first, first result object unchanged")
             for i, k in enumerate(KINDS)]
